@@ -38,6 +38,8 @@ pub enum Step {
     Table,
     FailWrites,
     MaxRead(usize),
+    /// the peer stops / resumes draining its socket: client writes block
+    StallWrites(bool),
 }
 
 pub fn kind_text(k: &OpKind) -> String {
@@ -299,6 +301,7 @@ pub fn run_script(steps: &[Step]) -> Outcome {
                             verif_trace(String::from("net failwrites"));
                         }
                         Step::MaxRead(n) => net.set_max_read(n),
+                        Step::StallWrites(b) => net.stall_writes(b),
                     }
                 }
                 settle().await;
